@@ -8,7 +8,8 @@
 (*   - the trace judge (Judge_Editor.tla): every transition recorded from the real program must be               *)
 (*     Apply(action)(pre-state) = post-state.                                                                    *)
 (*                                                                                                               *)
-(* State record  s = [input, cx, yanked, cy, offset, sel, multi]                                                 *)
+(* State record  s = [input, cx, yanked, cy, offset, sel, multi, track]                                          *)
+(*   track         : 0 = off, 1 = --track (follow the current item across list updates), 2 = track-current        *)
 (*   input, yanked : sequences of symbols (FzfChars)      cx : cursor, 0..Len(input)                             *)
 (*   cy            : position in the result list (0-based; may be transiently out of range, see Current)         *)
 (*   offset        : index of the first displayed result                                                         *)
@@ -122,6 +123,7 @@ Modelled == {"char", "put", "backward-char", "forward-char", "beginning-of-line"
              "half-page-down", "toggle", "toggle-up", "toggle-down", "toggle-in", "toggle-out", "toggle-all",
              "select-all", "deselect-all", "select", "deselect", "clear-selection", "change-multi",
              "next-selected", "prev-selected", "ignore", "toggle-sort", "print", "bell",
+             "toggle-track", "toggle-track-current", "track-current", "untrack-current",
              "exclude", "exclude-multi", "cancel", "delete-char/eof", "backward-delete-char/eof", "accept", "accept-non-empty",
              "accept-or-print-query", "abort", "print-query"}
 
@@ -223,6 +225,10 @@ Apply1(act, arg, s, e) ==
     [] act = "exclude" ->          \* the excluded item is deselected; the list itself changes with the next result
          LET c == Current(s, e) IN IF c # -1 THEN [s EXCEPT !.sel = Remove(s.sel, c)] ELSE s
     [] act = "exclude-multi" -> [s EXCEPT !.sel = <<>>]
+    [] act = "toggle-track" -> [s EXCEPT !.track = IF s.track = 1 THEN 0 ELSE IF s.track = 0 THEN 1 ELSE 2]
+    [] act = "toggle-track-current" -> [s EXCEPT !.track = IF s.track = 2 THEN 0 ELSE IF s.track = 0 THEN 2 ELSE 1]
+    [] act = "track-current" -> [s EXCEPT !.track = IF s.track = 0 THEN 2 ELSE s.track]
+    [] act = "untrack-current" -> [s EXCEPT !.track = IF s.track = 2 THEN 0 ELSE s.track]
     [] act = "clear-selection" -> IF s.multi > 0 THEN [s EXCEPT !.sel = <<>>] ELSE s
     [] act = "change-multi" ->          \* arg: -1 = no argument (unlimited), n >= 0 = new limit
          LET m == IF arg = -1 THEN MaxMulti ELSE arg
@@ -236,12 +242,35 @@ Apply(act, arg, s, e) ==
     LET r == Apply1(act, arg, s, e)
     IN IF e.inputless THEN [r EXCEPT !.input = s.input, !.cx = Len(s.input)] ELSE r
 
-(* UpdateList with --track off: the cursor is left alone (the renderer clamps it); selections survive unless the *)
-(* input was reloaded (kind = "reload"); kind = "trim": only selections of items still loaded survive            *)
+(* UpdateList, selection part: selections survive unless the input was reloaded (kind = "reload");               *)
+(* kind = "trim": only selections of items still loaded survive                                                  *)
 ListChanged(s, kind, loaded(_)) ==
     CASE kind = "same" -> s
       [] kind = "reload" -> [s EXCEPT !.sel = <<>>]
       [] kind = "trim" -> [s EXCEPT !.sel = SelectSeq(s.sel, loaded)]
+
+(* UpdateList, cursor part.  With tracking on (and no reload) the cursor follows the item it was on: the item is  *)
+(* looked up in the new list and keeps its screen position; if it is gone, track-current switches itself off and   *)
+(* plain --track keeps the vertical position.  With tracking off the cursor is left alone (the renderer clamps).   *)
+IndexIn(list, id) == LET I == {i \in 1..Len(list) : list[i] = id} IN IF I = {} THEN -1 ELSE (CHOOSE i \in I : \A j \in I : i <= j) - 1
+ListChangedT(s, oldList, newList, kind, loaded(_), maxItems) ==
+    LET s1 == ListChanged(s, kind, loaded)
+        cur == IF s.cy >= 0 /\ Len(oldList) > s.cy THEN oldList[s.cy + 1] ELSE -1
+        prev == IF kind # "reload" /\ s.track # 0
+                THEN IF Len(oldList) > 0 THEN cur ELSE IF Len(newList) > 0 THEN newList[1] ELSE -1
+                ELSE -1
+        pos == s.cy - s.offset
+        count == Len(newList)
+        i == IndexIn(newList, prev)
+    IN IF prev < 0 THEN s1
+       ELSE IF i >= 0 THEN [s1 EXCEPT !.cy = i, !.offset = i - pos]
+       ELSE IF s.track = 2 THEN [s1 EXCEPT !.track = 0, !.cy = pos, !.offset = 0]
+       ELSE IF s.cy > count THEN [s1 EXCEPT !.cy = count - Min2(count, maxItems) + pos]
+       ELSE s1
+(* the renderer: clamp, then track-current gives up as soon as the focus moved to another item *)
+RenderT(s, e, lastFocus) ==
+    LET r == ConstrainView(s, e)
+    IN IF r.track = 2 /\ lastFocus >= 0 /\ Current(r, e) # lastFocus THEN [r EXCEPT !.track = 0] ELSE r
 
 -------------------------------------------------------------------------------
 (* State-level properties (C09) *)
